@@ -825,7 +825,7 @@ Proof.
 Qed.
 
 (** ** THE ROUND TRIP for EVERY encoding (any number of runs, any split events), up to the start-face phase: the only premise
-    left is [start_ok_g] on the decoder's final stack (decidable: [EbSimEvChk_proofs.start_ok_b]) *)
+    is [start_ok_g] on the decoder's final stack (proved for every encoding below: [start_allM]) *)
 Theorem ebsim_roundtrip_events_start_partial rm maxv :
   (Z.of_nat (length (o_syms o)) < 2147483648)%Z -> (cntv (rev (o_syms o)) <= maxv)%Z ->
   start_ok_g c2v opp nf Q (rev (o_syms o)) (topsE (rev (o_syms o)) (EVseg_of o) ns) (o_bits o) ->
@@ -963,7 +963,7 @@ End AllRunsS.
 
 (** against DecodeConnectivity for the tables of CornerTable::Create: EVERY encoding (any number of start faces, any split
     events), every remove_invalid_vertices; premises: the size bound and guard G3 (as everywhere) and the start-face
-    condition [start_ok_g] - the ONLY part of the general theorem that is not proved *)
+    condition [start_ok_g] (discharged below: [start_allM], [ebsim_roundtrip_ct]) *)
 Theorem ebsim_roundtrip_events_start_ct_partial faces t o rm : ct_create faces = Some t -> eb_encode_ct t = EOk o ->
   (Z.of_nat (3 * length faces + length (ct_vcorn t)) < 2147483648)%Z ->
   ((3 * o_nfaces o) / 2 <= (o_nverts o * (o_nverts o - 1)) / 2)%Z ->
@@ -1020,3 +1020,57 @@ Proof.
   apply (start_allM (ct_c2v t) (ct_opp t) (length faces) (length (ct_vcorn t)) (ct_niso t) (ct_ndeg t) o tr L OK Hv FAN Et).
 Qed.
 
+
+(** * the simulation ALONG THE TRACE, general: at configuration i of the encoder (any encoding) the decoder, run on the last
+    k = ns - i symbols with the whole event list, is in [SIM] with it; its stack holds the tip corners of the faces [topsE k] =
+    the current face, the encoder's stack entries below the top that are still processing corners, and one entry per later
+    run; its pending events are those of older symbols, its registered split corners [SPL k] *)
+Definition simM (c2v : list nat) (opp : list (option nat)) (o : enc_out) (tr : list cfg) (NC maxv : Z) (cf : cfg) (d : D.st) : Prop :=
+  let Y := rev (o_syms o) in let Q := o_pcc o in let ns := length (o_syms o) in
+  let k := ns - length (syms (cf_st cf)) in
+  SIM c2v opp Q k d /\
+  cf_corner cf :: pcc (cf_st cf) = skipn (k - 1) (firstn ns Q) /\
+  D.stack d = map (fun j => dco j 0) (topsE Y (EVseg_of o) k) /\
+  (exists rest, map (fun j => nth j Q 0) (topsE Y (EVseg_of o) k) =
+                cf_corner cf :: map the (filter (alive_e tr) (tl (stack (cf_st cf)))) ++ rest) /\
+  Draco.Proofs.Edgebreaker_proofs.W NC maxv (Z.of_nat k) d /\ Draco.Proofs.Edgebreaker_fan_proofs.FI (Z.of_nat k) d /\
+  D.events d = REM Y (EVseg_of o) k /\ D.splits d = SPL (EVseg_of o) k.
+
+Theorem ebsim_trace c2v opp nf nv niso ndeg o tr rm maxv :
+  length c2v = 3 * nf -> opp_ok c2v opp -> (forall c, c < 3 * nf -> vtx c2v c < nv) -> one_fan c2v opp ->
+  eb_encode_tr c2v opp nv niso ndeg = EOk (o, tr) ->
+  (Z.of_nat (length (o_syms o)) < 2147483648)%Z -> (cntv (rev (o_syms o)) <= maxv)%Z ->
+  let ns := length (o_syms o) in
+  let NC := (3 * Z.of_nat (length (o_pcc o)))%Z in
+  length tr = ns /\
+  forall i cf, nth_error tr i = Some cf ->
+    length (syms (cf_st cf)) = i /\
+    exists d, D.sym_loop NC maxv rm (Z.of_nat ns) (firstn (ns - i) (rev (o_syms o))) 0 (D.init_st (o_events o)) = D.Ok d /\
+              simM c2v opp o tr NC maxv cf d.
+Proof.
+  intros Hlen OK Hv FAN Et Hns Hm ns NC.
+  pose proof (trace_refines_big_step_ok _ _ _ _ _ _ _ Et) as E.
+  destruct (trace_coherent _ _ _ _ _ _ _ Et) as [Lt0 Co]. fold ns in Lt0, Co. split; auto.
+  intros i cf Ecf. destruct (Co i cf Ecf) as [C1 C2].
+  assert (Hi : i < length tr) by (apply nth_error_Some; congruence).
+  assert (Li : length (syms (cf_st cf)) = i). { rewrite C1, rev_length, firstn_length_le; auto. fold ns. lia. }
+  split; auto.
+  destruct (stack_eventsM c2v opp nf nv niso ndeg o tr Hlen OK Hv FAN Et i cf Ecf) as (rest & STK).
+  destruct (encode_facts_wf c2v opp nf nv niso ndeg o Hlen OK Hv FAN E) as (L & ND & _).
+  destruct (eb_encode_total c2v opp nf nv niso ndeg Hlen OK Hv FAN) as [T1 T2].
+  destruct (Nat.eq_dec nf ndeg) as [Eq|Nd]; [rewrite (T1 Eq) in E; discriminate|].
+  destruct (T2 Nd) as (o' & E' & OO & _). rewrite E in E'. inversion E'; subst o'. clear E' T1 T2.
+  destruct OO as (_ & Rng & _). rewrite rev_length in L. fold ns in L.
+  assert (Rq : forall j, j < length (o_pcc o) -> nth j (o_pcc o) 0 < 3 * nf /\ is_degenerated c2v (nth j (o_pcc o) 0 / 3) = false).
+  { intros j Hj. rewrite Forall_forall in Rng. apply Rng. apply nth_In. exact Hj. }
+  pose proof (events_bookkeeping c2v opp nf nv niso ndeg o Hlen OK Hv FAN E) as BK.
+  assert (HYQ : length (rev (o_syms o)) <= length (o_pcc o)) by (rewrite rev_length; fold ns; lia).
+  destruct (sym_loop_simE c2v opp nf Hlen OK (o_pcc o) Rq ND NC maxv rm (rev (o_syms o)) eq_refl HYQ Hm FAN (EVseg_of o)
+              ltac:(rewrite rev_length; exact Hns) (ns - i))
+    as (d & Ed & HS & HW & HF & Hnv & Hev & Hsp & Hst & _).
+  - rewrite rev_length. fold ns. lia.
+  - intros j Hj. apply (script_allM c2v opp nf nv niso ndeg o tr Hlen OK Hv FAN Et). fold ns. lia.
+  - exists d. rewrite rev_length in Ed. fold ns in Ed. rewrite BK in Ed. split; auto. unfold simM. cbv zeta. rewrite Li. fold ns.
+    split; auto. split. { rewrite C2. f_equal. lia. }
+    split; auto. split; [exists rest; exact STK|]. auto.
+Qed.
